@@ -17,8 +17,9 @@ func init() {
 			Level: "other",
 			Explanation: "Decides the second sentence of the property on the indentation-aware lexer: (R1) INDENT tokens and pushes on the indent stack, DEDENT tokens and pops, come in pairs on every path (path automaton: a push without its INDENT, a DEDENT without its pop, etc. cannot reach a return or a loop back-edge), nothing else pushes or pops that stack, so #INDENT - #DEDENT equals the stack depth and is never negative; each pop is entailed by a non-empty stack (or by the reviewed width argument); " +
 				"(R2) the EOF token is enqueued exactly once per EOF of the base lexer, and only when the indent stack is entailed empty (after the draining loop); " +
-				"(R3) of the first sentence only a shape condition it depends on: the queue wraps indices modulo cap(buffer) and addresses elements within len(buffer), so every value stored in the buffer field must have len == cap (a two-argument make) — a re-sliced or appended buffer loses elements or panics after the next wrap.",
-			NotDecided:  "the first sentence beyond R3: exact FIFO/LIFO behaviour of Queue and Stack over all operation histories depends on index arithmetic across growth and wrap-around, a state space static rules do not bound (needs model checking or exhaustive exploration, a different family)",
+				"(R3) of the first sentence only a shape condition it depends on: the queue wraps indices modulo cap(buffer) and addresses elements within len(buffer), so every value stored in the buffer field must have len == cap (a two-argument make) — a re-sliced or appended buffer loses elements or panics after the next wrap; " +
+				"(R4) a second shape condition: wherever elements are copied out of the ring buffer into another one (growth, shrinking), the copies tile the ring in order — base[head:N] to the start, the wrapped segment base[0:head] right behind it (destination offset N − head, compared as affine forms over head and N = len = cap), and the head is reset to 0; a lone copy of base[head:] drops the wrapped elements.",
+			NotDecided:  "the first sentence beyond R3 and R4: exact FIFO/LIFO behaviour of Queue and Stack over all operation histories depends on the index arithmetic of the ordinary enqueue/dequeue/size steps, a state space static rules do not bound (needs model checking or exhaustive exploration, a different family); a carry-over written as a loop is undecided",
 			Assumptions: []string{"A3 (the base lexer delivers one EOF token)", "A4"},
 			Trusted:     []string{"go/types", "golang.org/x/tools/go/cfg", "go/packages loader"},
 		},
@@ -56,6 +57,7 @@ func checkC20(c *Ctx) {
 	c.rule("C20.R2", "the EOF token is enqueued exactly once per EOF, entailed by an empty indent stack (after the drain)", 2)
 	c.rule("C20.R3", "ring buffer shape: where the queue's index arithmetic is modulo cap(buffer) while elements are addressed through the buffer (bounded by len), every value ever stored in the buffer field has len == cap (a two-argument make), so that the two agree", 1)
 	c20R3(c)
+	c20R4(c)
 	if !lx.ok(c, "C20") {
 		return
 	}
@@ -529,6 +531,12 @@ func fullLengthSlice(w *World, f *Func, e ast.Expr, depth int) (bool, string) {
 			}
 		}
 	case *ast.SliceExpr:
+		// x[:cap(x)] (or x[0:cap(x)]): the length is the capacity by construction
+		if x.High != nil && !x.Slice3 && (x.Low == nil || exprStr(x.Low) == "0") {
+			if call, ok := unparen(x.High).(*ast.CallExpr); ok && isBuiltin(info, call, "cap") && len(call.Args) == 1 && exprStr(call.Args[0]) == exprStr(x.X) && simpleExpr(info, x.X) {
+				return true, "a re-slice up to its own capacity " + exprStr(x)
+			}
+		}
 		return false, "a re-slice " + exprStr(x)
 	}
 	return false, exprStr(e)
